@@ -65,8 +65,6 @@ Theorem C01_ber_roundtrip_partial : ltac:(let T := type of Asn1V.Ber.BerRoundtri
 Proof. exact Asn1V.Ber.BerRoundtrip.ber_roundtrip_partial. Qed.
 Print Assumptions C01_ber_roundtrip_partial.
 
-(* OPEN: C01_uper_reencode : enc (norm v) = enc v (byte-identical re-encoding of the decoded
-   value) is not proved yet; it is exercised by the property test on /repo. *)
 
 Local Open Scope string_scope.
 Definition ex_env : env :=
@@ -94,3 +92,74 @@ Example C01_hypotheses_inhabited :
           ("b", VBits [144] 4); ("c", VEnum "e2"); ("g", VBool true); ("h", VBytes [1; 2; 3; 4; 5])].
 Proof. eexists. split; [vm_compute; reflexivity|]. split; [vm_compute; lia | vm_compute; reflexivity]. Qed.
 Print Assumptions C01_hypotheses_inhabited.
+
+(** ------------------------------------------------------------------
+    UPER, third clause of the property: re-encoding the decoded value gives
+    the identical octets.  [reenc_ok] (Per/UperReenc.v) is a boolean,
+    type-directed side condition on the value: member names of a SEQUENCE/SET
+    are unique, a present DEFAULT component stays (un)equal to its default
+    under normalisation (automatic for well-formed leaf values), a named-bit
+    string under an extensible SIZE above 64K stays in the root, and an
+    addition group that is encoded as absent has no mandatory member (the
+    open finding per-addition-group-zero-width).  Each clause is shown
+    necessary by a [.._refuted] example in Per/UperReencEx.v. *)
+From Asn1V Require Import Per.UperReenc Per.UperReencEx.
+
+Theorem C01_uper_reencode :
+  forall numeric fuel e t v data,
+    reenc_ok numeric e fuel t v = true ->
+    uper_encode numeric fuel e t v = Ok data ->
+    uper_encode numeric fuel e t (norm numeric e fuel t v) = Ok data.
+Proof. exact uper_reencode. Qed.
+Print Assumptions C01_uper_reencode.
+
+Theorem C01_uper_decode_reencode :
+  forall numeric fuel e t v data,
+    reenc_ok numeric e fuel t v = true ->
+    uper_encode numeric fuel e t v = Ok data ->
+    exists v' n, uper_decode numeric fuel e t data = Ok (v', n) /\
+                 uper_encode numeric fuel e t v' = Ok data.
+Proof. exact uper_decode_reencode. Qed.
+Print Assumptions C01_uper_decode_reencode.
+
+(** Non-vacuity of [reenc_ok], and the refutation that records the C01 face of
+    the open finding per-addition-group-zero-width (a well-formed value whose
+    re-encoding silently drops a component). *)
+Example C01_reenc_ok_inhabited : ltac:(let T := type of reenc_ok_example in exact T).
+Proof. exact reenc_ok_example. Qed.
+Print Assumptions C01_reenc_ok_inhabited.
+Example C01_uper_reencode_empty_group_refuted : ltac:(let T := type of uper_reencode_empty_group_refuted in exact T).
+Proof. exact uper_reencode_empty_group_refuted. Qed.
+Print Assumptions C01_uper_reencode_empty_group_refuted.
+
+(** ------------------------------------------------------------------
+    Aligned PER (per.py), model Per/PerImpl.v.  The encoder is a state
+    transformer on (bit position, bits); decoding is positional (alignment
+    to the octet grid), so the bit-level statement carries the invariant
+    "position + remaining length = 0 mod 8". *)
+From Asn1V Require Import Per.PerImpl Per.PerPrim Per.PerPB Per.PerRT Per.PerExamples.
+
+Theorem C01_per_roundtrip_bits :
+  forall numeric e fuel t v st st',
+    penc_ty numeric e fuel t v st = Ok st' ->
+    exists b, st' = pst_app st b /\ pst_bits st' = (pst_bits st ++ b)%list /\
+      forall rest, ((fst st + length b + length rest) mod 8 = 0)%nat ->
+        pdec_ty numeric e fuel t (b ++ rest)%list = Ok (pnorm numeric e fuel t v, rest).
+Proof. exact per_roundtrip_bits. Qed.
+Print Assumptions C01_per_roundtrip_bits.
+
+Theorem C01_per_roundtrip :
+  forall numeric fuel e t v data,
+    per_encode numeric fuel e t v = Ok data ->
+    forall tail, exists n,
+      per_decode numeric fuel e t (data ++ tail)%list = Ok (pnorm numeric e fuel t v, n) /\
+      (n <= 8 * length data)%nat /\ (8 * length data < n + 8)%nat.
+Proof. exact per_roundtrip. Qed.
+Print Assumptions C01_per_roundtrip.
+
+Example C01_per_hypotheses_inhabited : ltac:(let T := type of per_hypotheses_inhabited in exact T).
+Proof. exact per_hypotheses_inhabited. Qed.
+Print Assumptions C01_per_hypotheses_inhabited.
+
+(* OPEN: C01_per_reencode (byte-identical re-encoding for aligned PER) is not proved; the
+   property test on /repo exercises it. *)
